@@ -50,8 +50,12 @@ def gen_mutation(rng, V, tbl, pred, allow_known):
         choices += [("activation_row_field", rng.choice(ACTIVATED)), ("activation_list", rng.choice(ACTIVATED)),
                     ("activation_assign", rng.choice(ACTIVATED))]
     if "xray" in props:
+        specials = [[26, 0, 0], [29, 0, 0], [26, 0, 2], [1, 2, 1], [1, 3, -1], [1, 0, 1], [8, 0, -2]]
+        if has_mass:
+            specials += [[26, 56, 2], [1, 1, 1], [28, 58, 3]]
         choices += [("xray_newfield", V.atom(rng, rng.choice(["el", "ion"]))),
-                    ("xray_sftable_inplace", rng.choice([[26, 0, 0], [29, 0, 0], [26, 0, 2]]))]
+                    ("xray_sftable_inplace", rng.choice(specials)),
+                    ("xray_sftable_inplace", V.atom(rng, rng.choice(["el", "ion"] + (["isoion"] if has_mass else []))))]
     if "mass" in props:
         choices += [("add_isotope", [26, 0, 0])]
     target, atom = rng.choice(choices)
@@ -329,7 +333,9 @@ def c10_strata():
                          ("nsf_table_inplace", [64, 0, 0]), ("magnetic_ff_field", [26, 0, 0]),
                          ("magnetic_ff_dict", [26, 0, 0]), ("activation_row_field", [27, 59, 0]),
                          ("activation_list", [27, 59, 0]), ("xray_newfield", [96, 0, 0]),
-                         ("xray_sftable_inplace", [26, 0, 0]), ("_mass", [96, 0, 0]), ("_density", [96, 0, 0])):
+                         ("xray_sftable_inplace", [26, 0, 0]), ("xray_sftable_inplace", [26, 56, 2]),
+                         ("xray_sftable_inplace", [1, 2, 1]), ("xray_sftable_inplace", [1, 3, -1]),
+                         ("_mass", [96, 0, 0]), ("_density", [96, 0, 0])):
         out.append(full + [["mutate", "T1", atom, target]])
     for g in E.LAZY_GROUPS:
         for k in (0, 1, 7):
